@@ -459,3 +459,16 @@ Proof.
   destruct (parse_loop lf pf p1) as [p2|e p2|c]; [eexists; eexists; reflexivity|eexists; eexists; reflexivity|].
   exfalso. cbn [okr] in Hok. apply Hok. intro Hc. subst c. apply Hb. reflexivity.
 Qed.
+
+(** the outcome of the compile with explicit budgets (run by the C06 check next to the executable model, which has
+    smaller ones, on the smaller inputs of its corpus) *)
+Definition compile_parse_with (lf pf : nat) (input : bytes) : outcome :=
+  match parse_bytes_with lf pf input with
+  | Parsed t e => ODone t e
+  | Crashed PPanic => OPanic
+  | Crashed PDeadlock => ODeadlock
+  | Crashed _ => OHang
+  end.
+
+Lemma compile_parse_is input : compile_parse input = compile_parse_with (lex_fuel input) (parse_fuel input) input.
+Proof. reflexivity. Qed.
